@@ -81,12 +81,12 @@ theorem emits_defragStart (db : DB) : Emits (OnDat (u32 (db.dataSeq + 1))) (defr
     ((emits_emit _ _ _ (Or.inr rfl)).trans (Emits.of_eq rfl)))
 
 /-- removals that leave the current data file alone -/
-def IsRemoval (S : Nat) (e : Effect) : Prop :=
-  e = .removeLog ∨ (∃ i, e = .removeIdx i) ∨ (∃ t, t ≠ S ∧ e = .removeDat t)
+def IsRemoval (S i : Nat) (e : Effect) : Prop :=
+  e = .removeLog ∨ (∃ j, (j = 0 ↔ i ≠ 0) ∧ e = .removeIdx j) ∨ (∃ t, t ≠ S ∧ e = .removeDat t)
 
-theorem emits_cleanupold (db : DB) (used : List Nat) : Emits (IsRemoval db.dataSeq) (cleanupold db used) db := by
+theorem emits_cleanupold (db : DB) (used : List Nat) (i : Nat) : Emits (IsRemoval db.dataSeq i) (cleanupold db used) db := by
   unfold cleanupold
-  have : ∀ (l : List Nat) (d : DB), d.dataSeq = db.dataSeq → Emits (IsRemoval db.dataSeq) (l.foldl (fun db s =>
+  have : ∀ (l : List Nat) (d : DB), d.dataSeq = db.dataSeq → Emits (IsRemoval db.dataSeq i) (l.foldl (fun db s =>
       if s ≠ db.dataSeq ∧ ¬ used.contains s then emit db "qdb.cleanupold:removed" (.removeDat s) else db) d) d := by
     intro l
     induction l with
@@ -96,7 +96,7 @@ theorem emits_cleanupold (db : DB) (used : List Nat) : Emits (IsRemoval db.dataS
       simp only [List.foldl_cons]
       split
       · rename_i hx
-        have h1 : Emits (IsRemoval db.dataSeq) (emit d "qdb.cleanupold:removed" (.removeDat x)) d :=
+        have h1 : Emits (IsRemoval db.dataSeq i) (emit d "qdb.cleanupold:removed" (.removeDat x)) d :=
           emits_emit d _ _ (Or.inr (Or.inr ⟨x, by rw [← hd]; exact hx.1, rfl⟩))
         exact (ih (emit d "qdb.cleanupold:removed" (.removeDat x)) hd).trans h1
       · exact ih d hd
@@ -151,5 +151,459 @@ theorem writedatfile_effs_small (db : DB)
   unfold bufFlush
   simp only [hne, ↓reduceIte]
   simp [idxSink, emit]
+
+/-! ### the shape of defrag's effect list -/
+
+/-- effects before the snapshot becomes valid: only the new data file and the creation of the new index file -/
+def PreCut (S i : Nat) (e : Effect) : Prop := OnDat S e ∨ e = .createIdx i
+
+theorem defrag_effs_shape (db : DB) (h : Cached db)
+    (hsmall : (snapBytes (u32 (db.verSeq + 1)) (layout (u32 (db.dataSeq + 1)) 4 db.index)).length ≤ bufSize) :
+    ∃ A B, (defrag db).effs = db.effs ++ (A ++ (("qdb.writedatfile:written",
+        Effect.appendIdx (1 - db.datIdx) (snapBytes (u32 (db.verSeq + 1)) (layout (u32 (db.dataSeq + 1)) 4 db.index))) :: B)) ∧
+      (∀ e ∈ A, PreCut (u32 (db.dataSeq + 1)) (1 - db.datIdx) e.2) ∧
+      (∀ e ∈ B, IsRemoval (u32 (db.dataSeq + 1)) (1 - db.datIdx) e.2) := by
+  obtain ⟨hs1, hs2, hs3, hs4, hs5, hs8, hs9⟩ := defragStart_disk db
+  have hf0 : (defragStart db).failed = none := hs5.trans h.1
+  obtain ⟨d', w', hfold, _, _, hrest⟩ :=
+    defragFold_layout (u32 (db.dataSeq + 1)) db.index h.2 (defragStart db) {} [] hf0
+  have hEm1 := emits_defragStart db
+  have hEm2 := emits_defragFold (u32 (db.dataSeq + 1)) db.index (defragStart db, {}, [])
+  rw [hfold] at hEm2
+  rw [hs3, hs2, List.nil_append] at hfold
+  have hd'f : d'.failed = none := by
+    have := congrArg (fun x => x.2.2.2.2.2.2.1) hrest
+    exact this.trans hf0
+  have hd's : d'.dataSeq = u32 (db.dataSeq + 1) := by
+    have := congrArg (fun x => x.2.2.2.2.2.1) hrest
+    exact this.trans hs3
+  have hd'i : d'.datIdx = db.datIdx := by
+    have := congrArg (fun x => x.2.2.2.2.2.2.2.1) hrest
+    exact this.trans hs8
+  have hd'v : d'.verSeq = db.verSeq := by
+    have := congrArg (fun x => x.2.2.2.2.2.2.2.2) hrest
+    exact this.trans hs9
+  have hdef : defrag db = defragFinish (u32 (db.dataSeq + 1)) d' w' (layout (u32 (db.dataSeq + 1)) 4 db.index) := by
+    unfold defrag
+    simp only [hs4, hs3, hfold, hd'f]
+  let recs := layout (u32 (db.dataSeq + 1)) 4 db.index
+  let e1 : DB := { d' with index := recs }
+  let e2 := bufFlush (defragSink (u32 (db.dataSeq + 1))) e1 w'
+  have hfin : defragFinish (u32 (db.dataSeq + 1)) d' w' recs =
+      { cleanupold (writedatfile e2) (if recs.isEmpty then [] else [u32 (db.dataSeq + 1)]) with extra := 0, pending := [] } := rfl
+  have hg2 := (bufFlush_gen (defragSink (u32 (db.dataSeq + 1))) (fun _ => (none : Option Bytes))
+    (fun d => (d.index, d.datIdx, d.verSeq, d.dataSeq)) (fun _ _ => rfl) (fun _ _ => rfl) e1 w').2
+  simp only [Prod.mk.injEq] at hg2
+  obtain ⟨g_ix, g_di, g_vs, g_ds⟩ := hg2
+  have he2i : e2.datIdx = db.datIdx := g_di.trans hd'i
+  have he2v : e2.verSeq = db.verSeq := g_vs.trans hd'v
+  have he2x : e2.index = recs := g_ix
+  have he2s : e2.dataSeq = u32 (db.dataSeq + 1) := g_ds.trans hd's
+  have hEm3 : Emits (OnDat (u32 (db.dataSeq + 1))) e2 e1 := emits_bufFlush _ (defragSink_emits _) e1 w'
+  have hw := writedatfile_effs_small e2 (by rw [he2v, he2x]; exact hsmall)
+  rw [he2i, he2v, he2x] at hw
+  have hEm5 := emits_cleanupold (writedatfile e2) (if recs.isEmpty then [] else [u32 (db.dataSeq + 1)]) (1 - db.datIdx)
+  rw [writedatfile_dataSeq, he2s] at hEm5
+  -- collect
+  obtain ⟨a1, ha1, pa1⟩ := hEm1
+  obtain ⟨a2, ha2, pa2⟩ := hEm2
+  obtain ⟨a3, ha3, pa3⟩ := hEm3
+  obtain ⟨b5, hb5, pb5⟩ := hEm5
+  have he1 : e1.effs = d'.effs := rfl
+  refine ⟨a1 ++ a2 ++ a3 ++ [("qdb.writedatfile:created", .createIdx (1 - db.datIdx))],
+    [("qdb.writedatfile:log-removed", .removeLog),
+     ("qdb.writedatfile:old-removed", .removeIdx (1 - (1 - db.datIdx)))] ++ b5, ?_, ?_, ?_⟩
+  · rw [hdef, hfin]
+    show (cleanupold (writedatfile e2) _).effs = _
+    rw [hb5, hw, ha3, he1, ha2, ha1]
+    simp [List.append_assoc]
+    rfl
+  · intro e he
+    simp only [List.mem_append, List.mem_cons, List.not_mem_nil, or_false] at he
+    rcases he with ((h1 | h1) | h1) | h1
+    · exact Or.inl (pa1 e h1)
+    · exact Or.inl (pa2 e h1)
+    · exact Or.inl (pa3 e h1)
+    · rw [h1]; exact Or.inr rfl
+  · intro e he
+    simp only [List.mem_append, List.mem_cons, List.not_mem_nil, or_false] at he
+    rcases he with (h1 | h1) | h1
+    · rw [h1]; exact Or.inl rfl
+    · rw [h1]; exact Or.inr (Or.inl ⟨_, by omega, rfl⟩)
+    · exact pb5 e h1
+
+/-! ### before the cut: nothing a reopen looks at has changed -/
+
+/-- relative to `F0`: the new index slot `i` is still unusable (absent or empty), the other slot, the log and every
+    data file except `S` are untouched -/
+structure PreState (F0 F : FS) (S i : Nat) : Prop where
+  slot : checkIdxFile (idxFile F i) = none
+  other : otherIdx F i = otherIdx F0 i
+  log : F.log = F0.log
+  dats : ∀ t, t ≠ S → dlookup t F.dats = dlookup t F0.dats
+
+theorem PreState.step {F0 F : FS} {S i : Nat} (h : PreState F0 F S i) (e : Effect) (he : PreCut S i e) :
+    PreState F0 (F.apply e) S i := by
+  rcases he with (⟨p, b, rfl⟩ | rfl) | rfl
+  · -- writeDat S
+    have hfs : (F.apply (.writeDat S p b)).idx0 = F.idx0 ∧ (F.apply (.writeDat S p b)).idx1 = F.idx1 ∧
+        (F.apply (.writeDat S p b)).log = F.log ∧ ∀ t, t ≠ S → dlookup t (F.apply (.writeDat S p b)).dats = dlookup t F.dats := by
+      cases hl : dlookup S F.dats with
+      | none =>
+        have : F.apply (.writeDat S p b) = F := by unfold FS.apply; simp [hl]
+        rw [this]; exact ⟨rfl, rfl, rfl, fun _ _ => rfl⟩
+      | some old =>
+        have : F.apply (.writeDat S p b) = { F with dats := dset S (writeAt old p b) F.dats } := by
+          unfold FS.apply; simp [hl]
+        rw [this]; exact ⟨rfl, rfl, rfl, fun t ht => dlookup_dset_other _ _ _ _ ht⟩
+    obtain ⟨a, b', c, d⟩ := hfs
+    exact ⟨by unfold idxFile; rw [a, b']; exact h.slot, by unfold otherIdx; rw [a, b']; exact h.other,
+      c.trans h.log, fun t ht => (d t ht).trans (h.dats t ht)⟩
+  · -- createDat S
+    exact ⟨h.slot, h.other, h.log, fun t ht => by
+      show dlookup t (dset S [] F.dats) = _
+      rw [dlookup_dset_other _ _ _ _ ht]; exact h.dats t ht⟩
+  · -- createIdx i
+    by_cases hi : i = 0
+    · have hf : F.apply (.createIdx i) = { F with idx0 := some [] } := by unfold FS.apply; simp [hi]
+      rw [hf]
+      refine ⟨by unfold idxFile; simp [hi, checkIdxFile], ?_, h.log, h.dats⟩
+      have := h.other
+      unfold otherIdx at this ⊢
+      simpa [hi] using this
+    · have hf : F.apply (.createIdx i) = { F with idx1 := some [] } := by unfold FS.apply; simp [hi]
+      rw [hf]
+      refine ⟨by unfold idxFile; simp [hi, checkIdxFile], ?_, h.log, h.dats⟩
+      have := h.other
+      unfold otherIdx at this ⊢
+      simpa [hi] using this
+
+theorem PreState.applyAll {F0 F : FS} {S i : Nat} (h : PreState F0 F S i) (l : List Effect)
+    (hl : ∀ e ∈ l, PreCut S i e) : PreState F0 (F.applyAll l) S i := by
+  induction l generalizing F with
+  | nil => exact h
+  | cons e t ih =>
+    exact ih (h.step e (hl e List.mem_cons_self)) (fun x hx => hl x (List.mem_cons_of_mem _ hx))
+
+theorem checkIdxFile_nil : checkIdxFile (some []) = none := by
+  unfold checkIdxFile; simp
+
+/-- a pre-cut directory reopens to the old content -/
+theorem PreState.grown {F0 F : FS} {S i : Nat} (h : PreState F0 F S i) (h0 : checkIdxFile (idxFile F0 i) = none) :
+    pickIdx F = pickIdx F0 ∧ logEntries F = logEntries F0 := by
+  have hp : pickIdx F = pickIdx F0 := by
+    have hs := h.slot
+    have ho := h.other
+    unfold idxFile at hs h0
+    unfold otherIdx at ho
+    unfold pickIdx
+    by_cases hi : i = 0
+    · simp only [hi, ↓reduceIte] at hs h0 ho
+      rw [ho, h0, hs]
+    · simp only [hi, ↓reduceIte] at hs h0 ho
+      rw [ho, h0, hs]
+  refine ⟨hp, ?_⟩
+  unfold logEntries snapVer
+  rw [h.log, hp]
+
+/-! ### after the cut: the new snapshot and its data file stay; old things may disappear -/
+
+structure PostState (F0 G : FS) (S i : Nat) (X fS : Bytes) : Prop where
+  slot : idxFile G i = some X
+  file : dlookup S G.dats = some fS
+  other : otherIdx G i = otherIdx F0 i ∨ otherIdx G i = none
+  log : G.log = F0.log ∨ G.log = none
+
+theorem PostState.step {F0 G : FS} {S i : Nat} {X fS : Bytes} (h : PostState F0 G S i X fS) (e : Effect)
+    (he : IsRemoval S i e) : PostState F0 (G.apply e) S i X fS := by
+  rcases he with rfl | ⟨j, hj, rfl⟩ | ⟨t, ht, rfl⟩
+  · exact ⟨h.slot, h.file, h.other, Or.inr rfl⟩
+  · by_cases hj0 : j = 0
+    · have hi : i ≠ 0 := hj.mp hj0
+      have hf : G.apply (.removeIdx j) = { G with idx0 := none } := by unfold FS.apply; simp [hj0]
+      rw [hf]
+      refine ⟨?_, h.file, Or.inr ?_, h.log⟩
+      · have := h.slot; unfold idxFile at this ⊢; simpa [hi] using this
+      · unfold otherIdx; simp [hi]
+    · have hi : i = 0 := by
+        by_cases hi : i = 0
+        · exact hi
+        · exact absurd (hj.mpr hi) hj0
+      have hf : G.apply (.removeIdx j) = { G with idx1 := none } := by unfold FS.apply; simp [hj0]
+      rw [hf]
+      refine ⟨?_, h.file, Or.inr ?_, h.log⟩
+      · have := h.slot; unfold idxFile at this ⊢; simpa [hi] using this
+      · unfold otherIdx; simp [hi]
+  · refine ⟨h.slot, ?_, h.other, h.log⟩
+    show dlookup S (derase t G.dats) = some fS
+    rw [dlookup_derase_other _ _ _ (Ne.symm ht)]
+    exact h.file
+
+theorem PostState.applyAll {F0 G : FS} {S i : Nat} {X fS : Bytes} (h : PostState F0 G S i X fS) (l : List Effect)
+    (hl : ∀ e ∈ l, IsRemoval S i e) : PostState F0 (G.applyAll l) S i X fS := by
+  induction l generalizing G with
+  | nil => exact h
+  | cons e t ih =>
+    exact ih (h.step e (hl e List.mem_cons_self)) (fun x hx => hl x (List.mem_cons_of_mem _ hx))
+
+/-! ### a directory holding the new snapshot reopens to the new content -/
+
+theorem seqNewer_succ (v : Nat) (hv : v < 2^32) :
+    seqNewerEq (u32 (v + 1)) v = true ∧ seqNewerEq v (u32 (v + 1)) = false := by
+  unfold seqNewerEq u32
+  have h1 : v % 2^32 = v := Nat.mod_eq_of_lt hv
+  by_cases hw : v + 1 < 2^32
+  · have h2 : (v + 1) % 2^32 = v + 1 := Nat.mod_eq_of_lt hw
+    constructor
+    · simp only [h1, h2, decide_eq_true_eq]; omega
+    · simp only [h2, decide_eq_false_iff_not]
+      omega
+  · have hv' : v = 2^32 - 1 := by omega
+    subst hv'
+    decide
+
+theorem u32_succ_ne (v : Nat) (hv : v < 2^32) : u32 (v + 1) ≠ v := by
+  unfold u32
+  by_cases hw : v + 1 < 2^32
+  · rw [Nat.mod_eq_of_lt hw]; omega
+  · have : v = 2^32 - 1 := by omega
+    subst this
+    decide
+
+/-- what the old directory may still contribute: the old index slot and the old log -/
+structure OldParts (F0 : FS) (i v : Nat) : Prop where
+  other : checkIdxFile (otherIdx F0 i) = none ∨ ∃ Xo, checkIdxFile (otherIdx F0 i) = some (v, Xo)
+  log : ∃ E, LogState F0 v E
+
+theorem post_pick {F0 G : FS} {S i v : Nat} {X fS : Bytes} (h : PostState F0 G S i X fS) (ho : OldParts F0 i v)
+    (hv : v < 2^32) (hX : checkIdxFile (some X) = some (u32 (v + 1), X)) :
+    (∃ j, pickIdx G = some (j, u32 (v + 1), X)) ∧ logEntries G = [] := by
+  obtain ⟨hn1, hn2⟩ := seqNewer_succ v hv
+  -- what the other slot can hold
+  have hother : checkIdxFile (otherIdx G i) = none ∨ ∃ Xo, checkIdxFile (otherIdx G i) = some (v, Xo) := by
+    rcases h.other with h1 | h1
+    · rw [h1]; exact ho.other
+    · rw [h1]; exact Or.inl rfl
+  have hpick : ∃ j, pickIdx G = some (j, u32 (v + 1), X) := by
+    have hs := h.slot
+    unfold idxFile at hs
+    unfold otherIdx at hother
+    unfold pickIdx
+    by_cases hi : i = 0
+    · simp only [hi, ↓reduceIte] at hs hother
+      rw [hs, hX]
+      rcases hother with h1 | ⟨Xo, h1⟩
+      · rw [h1]; exact ⟨0, rfl⟩
+      · rw [h1]; simp only [hn1, ↓reduceIte]; exact ⟨0, rfl⟩
+    · simp only [hi, ↓reduceIte] at hs hother
+      rw [hs, hX]
+      rcases hother with h1 | ⟨Xo, h1⟩
+      · rw [h1]; exact ⟨1, rfl⟩
+      · rw [h1]; simp only [hn2, Bool.false_eq_true, ↓reduceIte]; exact ⟨1, rfl⟩
+  refine ⟨hpick, ?_⟩
+  obtain ⟨j, hp⟩ := hpick
+  unfold logEntries snapVer
+  rw [hp]
+  rcases h.log with h1 | h1
+  · rw [h1]
+    obtain ⟨E, hE⟩ := ho.log
+    rcases hE with ⟨h2, _⟩ | h2
+    · rw [h2]
+    · rw [h2]
+      simp only []
+      have : logBody (le32 v ++ encLog E) (u32 (v + 1)) = none := by
+        unfold logBody
+        have ht : (le32 v ++ encLog E).take 4 = le32 v := List.take_left' (by simp)
+        rw [ht, leVal_le32 v hv]
+        have := u32_succ_ne v hv
+        simp [Ne.symm this]
+      rw [this]
+  · rw [h1]
+
+theorem ilookup_layout_val (S b : Nat) (l : List (Key × Rec)) (k : Key) :
+    (ilookup k (layout S b l)).map valOf = (ilookup k l).map valOf := by
+  have h := layout_abs S b l
+  have h1 : mapV absRec (layout S b l) = mapV absRec l := h
+  have h2 := congrArg (ilookup k) h1
+  rw [ilookup_mapV, ilookup_mapV] at h2
+  have h3 := congrArg (Option.map (fun x : Bytes × Nat => x.1)) h2
+  rw [Option.map_map, Option.map_map] at h3
+  exact h3
+
+/-- any directory that holds the complete new snapshot, its data file, and at most remnants of the old
+    snapshot / old log, reopens to the new content -/
+theorem post_content {F0 G : FS} {S i v : Nat} (idx : List (Key × Rec)) (hwf : IndexWF idx) (hS : S < 2^32)
+    (h : PostState F0 G S i (snapBytes (u32 (v + 1)) (layout S 4 idx)) (le32 S ++ (valsOf idx).flatten))
+    (ho : OldParts F0 i v) (hv : v < 2^32) :
+    DirReadable G ∧ ∀ k, diskValue G k = (ilookup k idx).map valOf := by
+  have hV : u32 (v + 1) < 2^32 := u32_lt _
+  have hfits := layout_fits S hS idx hwf.wf 4 hwf.small
+  obtain ⟨⟨j, hpick⟩, hlog⟩ := post_pick h ho hv (checkIdxFile_snapBytes _ _ hV)
+  have hrecs := snapshotRecs_snapBytes (u32 (v + 1)) (layout S 4 idx) hfits
+  have hkeys : (Keys ((layout S 4 idx).map stripKR)).Nodup := by
+    have : Keys ((layout S 4 idx).map stripKR) = idx.map (·.1) := by
+      unfold Keys
+      rw [List.map_map]
+      have : ((fun x : Key × Rec => x.1) ∘ stripKR) = (fun x : Key × Rec => x.1) := by funext x; rfl
+      rw [this, layout_keys]
+    rw [this]; exact hwf.nodup
+  have hDI : diskIndex G = mapV strip (layout S 4 idx) := by
+    unfold diskIndex snapBase
+    rw [hpick, hlog]
+    simp only [applyEntriesL, List.foldl_nil, hrecs]
+    exact isetAll_nil_nodup _ hkeys
+  have hreads := layout_reads S idx hwf.wf (le32 S) (by simpa using hwf.small)
+  simp only [le32_length] at hreads
+  constructor
+  · intro kr hkr
+    rw [hDI] at hkr
+    obtain ⟨x, hx, rfl⟩ := List.mem_map.mp hkr
+    obtain ⟨h1, h2⟩ := hreads x hx
+    exact ⟨(layout_cached _ _ _ hwf.cached x hx).2, _, valOf x.2,
+      by show dlookup x.2.seq _ = _; rw [h1]; exact h.file, h2⟩
+  · intro k
+    unfold diskValue
+    rw [hDI, ilookup_mapV, ← ilookup_layout_val S 4 idx k]
+    cases hl : ilookup k (layout S 4 idx) with
+    | none => rfl
+    | some r =>
+      have hmem := ilookup_key_pair k r _ hl
+      obtain ⟨h1, h2⟩ := hreads (k, r) hmem
+      simp only [Option.map_some, Option.some.injEq]
+      show List.take r.len (List.drop r.pos ((dlookup r.seq G.dats).getD [])) = valOf r
+      have h1' : r.seq = S := h1
+      rw [h1', h.file]
+      exact h2.2.2
+
+/-! ### all crash points of defrag() -/
+
+theorem removal_keeps (S i : Nat) (l : List Effect) (hl : ∀ e ∈ l, IsRemoval S i e) (G : FS) :
+    idxFile (G.applyAll l) i = idxFile G i ∧ dlookup S (G.applyAll l).dats = dlookup S G.dats := by
+  induction l generalizing G with
+  | nil => exact ⟨rfl, rfl⟩
+  | cons e t ih =>
+    obtain ⟨a, b⟩ := ih (fun x hx => hl x (List.mem_cons_of_mem _ hx)) (G.apply e)
+    have hstep : idxFile (G.apply e) i = idxFile G i ∧ dlookup S (G.apply e).dats = dlookup S G.dats := by
+      rcases hl e List.mem_cons_self with rfl | ⟨j, hj, rfl⟩ | ⟨t', ht, rfl⟩
+      · exact ⟨rfl, rfl⟩
+      · by_cases hj0 : j = 0
+        · have hi : i ≠ 0 := hj.mp hj0
+          have hf : G.apply (.removeIdx j) = { G with idx0 := none } := by unfold FS.apply; simp [hj0]
+          rw [hf]; exact ⟨by unfold idxFile; simp [hi], rfl⟩
+        · have hi : i = 0 := by
+            by_cases hi : i = 0
+            · exact hi
+            · exact absurd (hj.mpr hi) hj0
+          have hf : G.apply (.removeIdx j) = { G with idx1 := none } := by unfold FS.apply; simp [hj0]
+          rw [hf]; exact ⟨by unfold idxFile; simp [hi], rfl⟩
+      · exact ⟨rfl, dlookup_derase_other _ _ _ (Ne.symm ht)⟩
+    exact ⟨a.trans hstep.1, b.trans hstep.2⟩
+
+theorem same_disk_readable (F0 F : FS) (hp : pickIdx F = pickIdx F0) (hl : logEntries F = logEntries F0)
+    (hd : ∀ kr ∈ diskIndex F0, dlookup kr.2.seq F.dats = dlookup kr.2.seq F0.dats) (h0 : DirReadable F0) :
+    DirReadable F ∧ ∀ k, diskValue F k = diskValue F0 k := by
+  have hD : diskIndex F = diskIndex F0 := by unfold diskIndex snapBase; rw [hl, hp]
+  constructor
+  · intro kr hkr
+    rw [hD] at hkr
+    obtain ⟨h1, f, v, h3, h4⟩ := h0 kr hkr
+    exact ⟨h1, f, v, by rw [hd kr hkr]; exact h3, h4⟩
+  · intro k
+    unfold diskValue
+    rw [hD]
+    cases hlk : ilookup k (diskIndex F0) with
+    | none => rfl
+    | some rd =>
+      have hkmem := ilookup_key_pair k rd (diskIndex F0) hlk
+      simp only [Option.map_some, Option.some.injEq]
+      rw [hd (k, rd) hkmem]
+
+/-- what the directory must look like before defrag starts -/
+structure DefragReady (db : DB) : Prop where
+  cached : Cached db
+  wf : IndexWF db.index
+  free : checkIdxFile (idxFile db.fs (1 - db.datIdx)) = none
+  old : OldParts db.fs (1 - db.datIdx) db.verSeq
+  verlt : db.verSeq < 2^32
+  readable : DirReadable db.fs
+  seqs : ∀ kr ∈ diskIndex db.fs, kr.2.seq ≠ u32 (db.dataSeq + 1)
+  small : (snapBytes (u32 (db.verSeq + 1)) (layout (u32 (db.dataSeq + 1)) 4 db.index)).length ≤ bufSize
+
+/-- Every directory that exists inside defrag() — after any number of its file operations — reopens without
+    failure, and either EVERY key has the value the directory held before defrag(), or EVERY key has its
+    in-memory value. -/
+theorem defrag_prefix (db : DB) (hr : DefragReady db) :
+    ∃ es, (defrag db).effs = db.effs ++ es ∧
+      ∀ n, DirReadable (db.fs.applyAll ((es.map (·.2)).take n)) ∧
+        ((∀ k, diskValue (db.fs.applyAll ((es.map (·.2)).take n)) k = diskValue db.fs k) ∨
+         (∀ k, diskValue (db.fs.applyAll ((es.map (·.2)).take n)) k = (ilookup k db.index).map valOf)) := by
+  obtain ⟨A, B, hsh, hA, hB⟩ := defrag_effs_shape db hr.cached hr.small
+  refine ⟨_, hsh, ?_⟩
+  -- the final directory
+  obtain ⟨es', he1, he2⟩ := replays_defrag db
+  have hes : es' = A ++ (("qdb.writedatfile:written", Effect.appendIdx (1 - db.datIdx)
+      (snapBytes (u32 (db.verSeq + 1)) (layout (u32 (db.dataSeq + 1)) 4 db.index))) :: B) :=
+    List.append_cancel_left (he1.symm.trans hsh)
+  obtain ⟨_, _, d3, _, _, d6, _⟩ := defrag_disk db hr.cached
+  let S := u32 (db.dataSeq + 1)
+  let i := 1 - db.datIdx
+  let X := snapBytes (u32 (db.verSeq + 1)) (layout S 4 db.index)
+  let A' := A.map (·.2)
+  let B' := B.map (·.2)
+  have hA' : ∀ e ∈ A', PreCut S i e := by
+    intro e he
+    obtain ⟨x, hx, rfl⟩ := List.mem_map.mp he
+    exact hA x hx
+  have hB' : ∀ e ∈ B', IsRemoval S i e := by
+    intro e he
+    obtain ⟨x, hx, rfl⟩ := List.mem_map.mp he
+    exact hB x hx
+  have hmap : (A ++ (("qdb.writedatfile:written", Effect.appendIdx i X) :: B)).map (·.2) =
+      A' ++ (Effect.appendIdx i X :: B') := by simp [A', B']
+  rw [hmap]
+  have hpre0 : PreState db.fs db.fs S i := ⟨hr.free, rfl, rfl, fun _ _ => rfl⟩
+  have hpreA := hpre0.applyAll A' hA'
+  -- the state at the cut
+  let Gc := (db.fs.applyAll A').apply (.appendIdx i X)
+  have hfinal : (defrag db).fs = Gc.applyAll B' := by
+    rw [he2, hes, hmap, applyAll_append]
+    rfl
+  obtain ⟨k1, k2⟩ := removal_keeps S i B' hB' Gc
+  have hslotc : idxFile Gc i = some X := by rw [← k1, ← hfinal]; exact d3
+  have hfilec : dlookup S Gc.dats = some (le32 S ++ (valsOf db.index).flatten) := by rw [← k2, ← hfinal]; exact d6
+  have hpostc : PostState db.fs Gc S i X (le32 S ++ (valsOf db.index).flatten) := by
+    refine ⟨hslotc, hfilec, Or.inl ?_, Or.inl ?_⟩
+    · have := hpreA.other
+      show otherIdx ((db.fs.applyAll A').apply (.appendIdx i X)) i = _
+      rw [← this]
+      unfold otherIdx FS.apply
+      by_cases hi : i = 0 <;> simp [hi]
+    · have := hpreA.log
+      show ((db.fs.applyAll A').apply (.appendIdx i X)).log = _
+      rw [← this]
+      unfold FS.apply
+      by_cases hi : i = 0 <;> simp [hi]
+  intro n
+  by_cases hn : n ≤ A'.length
+  · -- before the cut
+    have ht : (A' ++ (Effect.appendIdx i X :: B')).take n = A'.take n := by
+      rw [List.take_append_of_le_length hn]
+    rw [ht]
+    have hpre := hpre0.applyAll (A'.take n) (fun e he => hA' e (List.mem_of_mem_take he))
+    obtain ⟨g1, g2⟩ := hpre.grown hr.free
+    have := same_disk_readable db.fs _ g1 g2 (fun kr hkr => hpre.dats _ (hr.seqs kr hkr)) hr.readable
+    exact ⟨this.1, Or.inl this.2⟩
+  · -- at or after the cut
+    have ht : (A' ++ (Effect.appendIdx i X :: B')).take n =
+        A' ++ (Effect.appendIdx i X :: B'.take (n - A'.length - 1)) := by
+      rw [List.take_append, List.take_of_length_le (by omega)]
+      obtain ⟨m, hm⟩ : ∃ m, n - A'.length = m + 1 := ⟨n - A'.length - 1, by omega⟩
+      rw [hm, List.take_succ_cons]
+      simp
+    rw [ht, applyAll_append]
+    show DirReadable (Gc.applyAll (B'.take (n - A'.length - 1))) ∧ _
+    have hpost := hpostc.applyAll (B'.take (n - A'.length - 1)) (fun e he => hB' e (List.mem_of_mem_take he))
+    have := post_content db.index hr.wf (u32_lt _) hpost hr.old hr.verlt
+    exact ⟨this.1, Or.inr this.2⟩
 
 end GocoinV.Proofs.C19
